@@ -60,6 +60,10 @@ package hamt
 //@ rely hamt._UnixFSHAMTShard: a-set-memo-is-never-changed: old(self.cachedLength) != -1 ==> self.cachedLength == old(self.cachedLength)
 //@ typeinv hamt._UnixFSHAMTShard: wfData(self.data) && 8 <= shardFanout(self) && shardFanout(self) <= 1024 && len(self.bitfield) * 8 == shardFanout(self) && self.shardCache != nil && self._substrate != nil
 //@ typeinv hamt._UnixFSShardedDir__ListItr: 0 <= self.maxPadLen && self.nd != nil && self._substrate != nil
+// C02 / C15 / C20: every (nested) list iterator of a sharded directory tells value links from
+// sub-shard links by the prefix width of the shard it walks (a child shard may have another fanout
+// than its parent).
+//@ typeinv hamt._UnixFSShardedDir__ListItr: pad-is-the-prefix-width-of-its-own-shard: self.maxPadLen == padLen(self.nd.data)
 //@ typeinv hamt.hashBits: 0 <= self.consumed && self.consumed <= len(self.b) * 8 && 0 <= len(self.b) && len(self.b) <= (1 << 56)
 
 //@ func hamt.checkLogTwo
@@ -183,7 +187,12 @@ package hamt
 //@ ensures result <==> itrDone(itr)
 //@ assigns nothing
 
+//@ func (*hamt._UnixFSHAMTShard).MapIterator
+//@ prop C02 C15 C20
+//@ func (*hamt._UnixFSHAMTShard).Iterator
+//@ prop C02 C15 C20
 //@ func (*hamt._UnixFSShardedDir__ListItr).next
+//@ prop C02 C15 C20
 //@ ensures exhausted-child-is-dropped: itr.childIter != nil ==> !itrDone(itr.childIter)
 //@ func (*hamt._UnixFSShardedDir__ListItr).Next
 //@ ensures exhausted-child-is-dropped: itr.childIter != nil ==> !itrDone(itr.childIter)
